@@ -132,8 +132,26 @@ def _func_src(src: str, name: str) -> str:
     return src[max(k, 0): j if j > 0 else len(src)]
 
 
+#: saved inputs that are always replayed (one per shard 0..n-1): shapes a drawn campaign of 32 cases reaches rarely
+ANCHORS = [
+    {"module": "vfx_ledger", "in_package": False, "strip_annotations": False, "seed": 1, "algo": "DYNAMOSA", "iterations": 10,
+     "assertion": "SIMPLE", "no_xfail": True, "minimize": True},
+    {"module": "vfx_cli", "in_package": False, "strip_annotations": False, "seed": 3, "algo": "DYNAMOSA", "iterations": 10,
+     "assertion": "SIMPLE", "no_xfail": False, "minimize": True},
+    {"module": "vfx_cli", "in_package": False, "strip_annotations": False, "seed": 8, "algo": "MOSA", "iterations": 8,
+     "assertion": "NONE", "no_xfail": True, "minimize": False},
+    {"module": "vfc_floats", "in_package": True, "strip_annotations": False, "seed": 2, "algo": "WHOLE_SUITE", "iterations": 6,
+     "assertion": "SIMPLE", "no_xfail": False, "minimize": True},
+]
+
+
 def shard(ctx) -> None:
-    from vf.hyp import run_cases
+    from vf.hyp import guarded, run_cases
 
     os.environ["VF_SCRATCH_DIR"] = ctx.scratch
+    if ctx.shard < len(ANCHORS):
+        anchor = dict(ANCHORS[ctx.shard])
+        res = guarded(evaluate)(anchor)
+        res.labels.append("anchor-case")
+        ctx.record(anchor, res)
     run_cases(ctx, strategy(ctx), evaluate, max(1, ctx.params["examples"] // ctx.nshards), shrink=False)
